@@ -143,7 +143,9 @@ def rand_rawmask(rng, shape):
     if r < 0.85 and shape:
         return ['arr', [1 if i == 0 else s for i, s in enumerate(shape)], True, True]     # broadcastable
     if r < 0.95:
-        return ['arr', rng.choice(S.SHAPES), rng.random() < 0.85, True]
+        shp = rng.choice(S.SHAPES)
+        # a 0-d non-bool array is turned into a numpy.bool_ by `arg != 0` (its CONTENT decides): only bool 0-d arrays
+        return ['arr', shp, rng.random() < 0.85 or not shp, True]
     return 'bad'
 
 
@@ -240,6 +242,38 @@ def collapse_of(o):
     return 'keep'
 
 
+def first_mask_bit_matters(op, pool):
+    """broadcast_to(()) turns an array mask into bool(mask.ravel()[0]): which bool is decided by the CONTENT of the
+    mask, which the dump-level model does not see (it answers False); such steps are not generated"""
+    def bit(o):
+        m = o._mask_
+        return isinstance(m, np.ndarray) and m.size > 0 and bool(m.ravel()[0])
+    if op[0] == 'broadcast_to' and not op[2]:
+        o = pool[op[1]]
+        return bit(o) or any(bit(d) for d in o._derivs_.values())
+    if op[0] == 'insert_deriv':
+        return pool[op[1]]._shape_ == () and bit(pool[op[3]])
+    if op[0] == 'ctor' and op[4] != 'none':
+        return any(bit(pool[i]) for _, i in op[4])
+    return False
+
+
+def stale_cached_wod(op, pool):
+    """insert_deriv uses `deriv.wod`, which for an object WITH derivatives is a cached twin; earlier calls may have
+    changed that twin (broadcast_to freezes it) without changing the object.  The model has no cache (C18)."""
+    def stale(o):
+        w = o._cache_.get('wod')
+        return w is not None and w is not o and o._derivs_ and D.dump(w)[:22] != D.dump(o)[:22]
+    if op[0] == 'insert_deriv':
+        return stale(pool[op[3]])
+    if op[0] == 'ctor':
+        ds = [pool[i] for _, i in op[4]] if op[4] != 'none' else []
+        if op[2] != 'bad' and op[2][0] == 'obj':
+            ds += list(pool[op[2][1]]._derivs_.values())
+        return any(stale(d) for d in ds)
+    return False
+
+
 def uses_boolean_as_float(op, dumps):
     """Boolean overrides as_float (returns a Scalar); the model is of Qube.as_float"""
     isb = lambda i: dumps[i][0] == 'Boolean'
@@ -265,7 +299,8 @@ def gen_prim(rng, nops, table):
             dumps = [D.dump(o) for o in pool]
             op = gen_op(rng, dumps)
             for _ in range(20):
-                if not uses_boolean_as_float(op, dumps):
+                if not uses_boolean_as_float(op, dumps) and not first_mask_bit_matters(op, pool) \
+                        and not stale_cached_wod(op, pool):
                     break
                 op = gen_op(rng, dumps)
             if op[0] == 'pickle':
